@@ -29,7 +29,18 @@ def main():
             # checker self-tests first (their result is part of the evidence); the verdict below is about /repo itself
             rep.selftest = core.selftest(pid, mod, int(os.environ.get("VERIF_SEED", "0") or 0))
             print("self-test: %d/%d seeded variants detected, %d skipped" % (rep.selftest["detected"], rep.selftest["variants"], len(rep.selftest["skipped"])))
-        rc = mod.check(F, rep, tier)
+        try:
+            rc = mod.check(F, rep, tier)
+        except core.CheckBroken:
+            raise
+        except Exception:
+            # the rule code met a MIR shape it cannot handle: that is a gap of the checker, not a verdict about /repo.
+            # Rules that ran before it keep their verdicts; the crash is recorded as NOT-DECIDED (never as an alarm).
+            tb = traceback.format_exc()
+            rep.undecided("internal", "rule-code-exception", tb.strip().splitlines()[-1] + " @ " + " <- ".join(l.strip() for l in tb.splitlines() if l.strip().startswith("File") )[-300:])
+            rep.extra["crashed"] = tb[-1500:]
+            mod_expl = getattr(mod, "EXPL", "")
+            rc = core.finish(rep, explanation=mod_expl, assumptions=getattr(mod, "ASSUME", None), trusted=getattr(mod, "TRUST", None))
         if explain:
             with open(explain) as f: v = json.load(f)
             print("--- explain %s ---" % explain)
